@@ -218,8 +218,9 @@ def run(ctx):
                 'history is replayed on real LatexContextDb objects for macros, environments and specials; '
                 'non-trivial: history of >= 2 steps.')
     # 1. design-level check, intended model, larger universe (no emission)
-    r = common.run_tlc('ContextDb', cfg(steps=4 if quick else 5, maxobj=3), workers=common.NPROC,
-                       timeout=1500, xmx='12g')
+    # (thorough: 5 steps over two named categories -- with three the state space exceeds what fits in the time budget)
+    r = common.run_tlc('ContextDb', cfg(steps=4, maxobj=3) if quick else cfg(cats=('A', 'B'), steps=5, maxobj=3),
+                       workers=common.NPROC, timeout=3000, xmx='12g')
     ctx.add_tlc(r, 'ContextDb intended: all properties, histories <= %d' % (4 if quick else 5))
     common.tlc_must_pass(r, 'ContextDb intended')
     ctx.log('intended model: %d states generated, %d distinct' % (r.generated, r.distinct))
